@@ -198,6 +198,11 @@ struct Driver
     alignas(Vec) unsigned char vstore[NV + 1][sizeof(Vec)];
     int vstate[NV + 1] = {0, 0, 0, 0};  // 0 absent 1 live 2 moved-from
     std::array<std::size_t, PL::NFIXED> vfixed[NV + 1] = {};  // FixedSize counts each vector was given (driver bookkeeping)
+    using Elem = typename Vec::value_type;
+    static constexpr int NE = 3;
+    alignas(Elem) unsigned char estore[NE + 1][sizeof(Elem)];
+    int estate[NE + 1] = {0, 0, 0, 0};  // 0 absent 1 live 2 moved-from
+    Elem& E(int x) { return *std::launder(reinterpret_cast<Elem*>(estore[x])); }
     int salt_counter = 0;
     Out* out = nullptr;
     long h = 0;
@@ -283,7 +288,7 @@ struct Driver
         return s + "]";
     }
     template <class Ref>
-    static std::string fields_by_binding(const Ref& r, std::uintptr_t vbase)
+    static std::string fields_by_binding(Ref&& r, std::uintptr_t vbase)
     {
         return SB<N>::apply(r,
                             [&](auto&&... x)
@@ -420,6 +425,110 @@ struct Driver
         for (std::size_t k = 0; k < distinct.size(); ++k) o << (k ? "," : "") << distinct[k];
         o << "],\"pn\":" << pn << "}";
         return o.str();
+    }
+
+#ifndef VERIF_NO_ELEM
+    std::string el_path_json(Elem& e, int path, std::uintptr_t base)
+    {
+        const Elem& ce = e;
+        switch (path)
+        {
+            case 0:
+            {
+                typename Vec::reference r(e);
+                std::ostringstream o;
+                o << "{\"rb\":" << clampl(static_cast<long>(reinterpret_cast<std::uintptr_t>(r.data_begin()) - base))
+                  << ",\"re\":" << clampl(static_cast<long>(reinterpret_cast<std::uintptr_t>(r.data_end()) - base))
+                  << ",\"itd\":" << clampl(static_cast<long>(reinterpret_cast<std::uintptr_t>(r.data_begin()) - base))
+                  << ",\"f\":" << fields_by_get(e, base, std::make_index_sequence<N>{}) << "}";
+                return o.str();
+            }
+            case 1:
+            {
+                typename Vec::const_reference r(ce);
+                std::ostringstream o;
+                o << "{\"rb\":" << clampl(static_cast<long>(reinterpret_cast<std::uintptr_t>(r.data_begin()) - base))
+                  << ",\"re\":" << clampl(static_cast<long>(reinterpret_cast<std::uintptr_t>(r.data_end()) - base))
+                  << ",\"itd\":" << clampl(static_cast<long>(reinterpret_cast<std::uintptr_t>(r.data_begin()) - base))
+                  << ",\"f\":" << fields_by_get(ce, base, std::make_index_sequence<N>{}) << "}";
+                return o.str();
+            }
+            case 2:
+            {
+                typename Vec::const_reference r(ce);
+                return elem_json(r, r.data_begin(), base, false);
+            }
+            default:
+            {
+#ifndef VERIF_NO_ELEM_SB
+                typename Vec::reference r(e);
+                std::ostringstream o;
+                o << "{\"rb\":" << clampl(static_cast<long>(reinterpret_cast<std::uintptr_t>(r.data_begin()) - base))
+                  << ",\"re\":" << clampl(static_cast<long>(reinterpret_cast<std::uintptr_t>(r.data_end()) - base))
+                  << ",\"itd\":" << clampl(static_cast<long>(reinterpret_cast<std::uintptr_t>(r.data_begin()) - base))
+                  << ",\"f\":" << fields_by_binding(e, base) << "}";
+                return o.str();
+#else
+                typename Vec::reference r(e);
+                return elem_json(r, r.data_begin(), base, false);
+#endif
+            }
+        }
+    }
+
+    std::string el_obs(int x)
+    {
+        std::ostringstream o;
+        Elem& e = E(x);
+        const Elem& ce = e;
+        o << "{\"x\":" << x << ",\"st\":\"" << (estate[x] == 1 ? "live" : "moved") << "\",\"al\":"
+          << ce.get_allocator().inst;
+        if (estate[x] != 1)
+        {
+            o << "}";
+            return o.str();
+        }
+        typename Vec::const_reference r(ce);
+        const void* db = r.data_begin();
+        Loc l = ledger().locate(db);
+        const Block* blk = l.blk > 0 ? ledger().find(l.blk) : nullptr;
+        const std::uintptr_t base = blk ? reinterpret_cast<std::uintptr_t>(blk->base) : 0;
+        o << ",\"blk\":" << l.blk << ",\"blive\":" << (blk && blk->live ? 1 : 0) << ",\"binst\":" << (blk ? blk->inst : 0)
+          << ",\"bsz\":" << (blk ? static_cast<long>(blk->bytes) : 0) << ",\"res\":" << (base % 4096);
+        std::vector<std::string> distinct;
+        std::string pn = "[";
+        for (int path = 0; path < 4; ++path)
+        {
+            std::string pj = el_path_json(e, path, base);
+            std::size_t k = 0;
+            for (; k < distinct.size(); ++k)
+                if (distinct[k] == pj) break;
+            if (k == distinct.size()) distinct.push_back(pj);
+            pn += (path ? "," : "");
+            pn += std::to_string(k + 1);
+        }
+        pn += "]";
+        o << ",\"P\":[";
+        for (std::size_t k = 0; k < distinct.size(); ++k) o << (k ? "," : "") << distinct[k];
+        o << "],\"pn\":" << pn << "}";
+        return o.str();
+    }
+#endif
+
+    std::string all_el_obs()
+    {
+        std::string s = "[";
+#ifndef VERIF_NO_ELEM
+        bool first = true;
+        for (int x = 1; x <= NE; ++x)
+        {
+            if (!estate[x]) continue;
+            if (!first) s += ",";
+            first = false;
+            s += el_obs(x);
+        }
+#endif
+        return s + "]";
     }
 
     std::string all_obs()
@@ -622,6 +731,94 @@ struct Driver
                 std::swap(vstate[v], vstate[op.a[0]]);
                 std::swap(vfixed[v], vfixed[op.a[0]]);
             }
+#ifndef VERIF_NO_ELEM
+            else if (op.n == "ElemFromRef")
+            {
+                const Vec& c = V(op.a[0]);
+                new (estore[v]) Elem(c[static_cast<std::size_t>(op.a[1])], VAlloc(op.a[2]));
+                estate[v] = 1;
+            }
+            else if (op.n == "ElemFromRvRef")
+            {
+                new (estore[v]) Elem(V(op.a[0])[static_cast<std::size_t>(op.a[1])], VAlloc(op.a[2]));
+                estate[v] = 1;
+            }
+            else if (op.n == "ElemCopy")
+            {
+                const Elem& src = E(op.a[0]);
+                new (estore[v]) Elem(src);
+                estate[v] = 1;
+            }
+            else if (op.n == "ElemMove")
+            {
+                new (estore[v]) Elem(std::move(E(op.a[0])));
+                estate[v] = 1;
+                estate[op.a[0]] = 2;
+            }
+            else if (op.n == "ElemCopyAlloc")
+            {
+                const Elem& src = E(op.a[0]);
+                new (estore[v]) Elem(src, VAlloc(op.a[1]));
+                estate[v] = 1;
+            }
+            else if (op.n == "ElemMoveAlloc")
+            {
+                const bool eq = VAlloc(op.a[1]) == E(op.a[0]).get_allocator();
+                new (estore[v]) Elem(std::move(E(op.a[0])), VAlloc(op.a[1]));
+                estate[v] = 1;
+                if (eq) estate[op.a[0]] = 2;
+            }
+            else if (op.n == "ElemCopyAssign")
+            {
+                const Elem& src = E(op.a[0]);
+                E(v) = src;
+                estate[v] = 1;
+            }
+            else if (op.n == "ElemMoveAssign")
+            {
+                Elem& src = E(op.a[0]);
+                const bool steals = Cfg::Kind::ae || Cfg::Kind::pocma || E(v).get_allocator() == src.get_allocator();
+                E(v) = std::move(src);
+                if (op.a[0] != v)
+                {
+                    estate[v] = 1;
+                    if (steals) estate[op.a[0]] = 2;
+                }
+            }
+            else if (op.n == "ElemSwap")
+            {
+                using std::swap;
+                swap(E(v), E(op.a[0]));
+                std::swap(estate[v], estate[op.a[0]]);
+            }
+#ifndef VERIF_NO_ELEM_ASSIGN_REF
+            else if (op.n == "ElemAssignFromRef")
+            {
+                const Vec& c = V(op.a[0]);
+                E(v) = c[static_cast<std::size_t>(op.a[1])];
+            }
+            else if (op.n == "ElemAssignFromRvRef")
+            {
+                E(v) = V(op.a[0])[static_cast<std::size_t>(op.a[1])];
+            }
+#endif
+#ifndef VERIF_NO_REF_ASSIGN_ELEM
+            else if (op.n == "RefAssignFromElem")
+            {
+                const Elem& src = E(op.a[1]);
+                V(v)[static_cast<std::size_t>(op.a[0])] = src;
+            }
+            else if (op.n == "RefAssignFromRvElem")
+            {
+                V(v)[static_cast<std::size_t>(op.a[0])] = std::move(E(op.a[1]));
+            }
+#endif
+            else if (op.n == "ElemDestroy")
+            {
+                E(v).~Elem();
+                estate[v] = 0;
+            }
+#endif
             else
             {
                 why = "unknown-op";
@@ -655,7 +852,7 @@ struct Driver
         for (std::size_t i = 0; i < op.a.size(); ++i) o << (i ? "," : "") << op.a[i];
         o << "],\"par\":{\"salt\":" << salt << ",\"cap\":" << parcap << ",\"fresh\":" << fresh << "},\"thrown\":" << (thrown ? 1 : 0)
           << ",\"ret\":" << ret << ",\"canary\":" << (ledger().canary_dead ? 1 : 0) << ",\"sub\":[" << sub
-          << "],\"obs\":" << all_obs() << "}";
+          << "],\"obs\":" << all_obs() << ",\"eobs\":" << all_el_obs() << "}";
         ledger().take_sub();  // projection must not produce events; drop defensively
         out->line(o.str());
         return true;
@@ -664,6 +861,16 @@ struct Driver
     void finish()
     {
         ledger().take_sub();
+#ifndef VERIF_NO_ELEM
+        for (int x = 1; x <= NE; ++x)
+        {
+            if (estate[x])
+            {
+                E(x).~Elem();
+                estate[x] = 0;
+            }
+        }
+#endif
         for (int v = 1; v <= NV; ++v)
         {
             if (vstate[v])
@@ -700,6 +907,7 @@ struct Driver
         step = 0;
         salt_counter = 0;
         for (int v = 0; v <= NV; ++v) vstate[v] = 0;
+        for (int x = 0; x <= NE; ++x) estate[x] = 0;
         const unsigned junk = junkmode >= 0 ? static_cast<unsigned>(junkmode) : (seed + static_cast<unsigned>(h)) % 4;
         ledger().init(seed + static_cast<unsigned>(h), junk);
         registry().reset();
